@@ -3,6 +3,7 @@
   Property theorems only; helper lemmas live in FtProofs/Lemmas/Trace*.lean.
 -/
 import FtProofs.Lemmas.TraceMachine
+import FtProofs.Lemmas.TraceNest
 namespace Ft
 open Ft.C16
 
@@ -62,6 +63,41 @@ example :
     C16.content (run (init 2) evs) ("K", "iter") =
       [.hdr ["K_pos", "K", "fiber_pos"], .dat [0, 4, 0], .dat [1, 7, 1]] ∧
     fileOn (run (init 2) evs) ("K", "iter") = true ∧ memOn (run (init 2) evs) ("K", "iter") = true := by
+  decide
+
+/-! ### loop nests: the odometer keeps the rows sorted -/
+
+/-- In a loop nest that is well-nested for key `k` (the body of every enclosing loop runs at most
+    once per counter value, the level's own stamps of `k` are non-decreasing) the iteration stamps of
+    the rows of `k` are lexicographically non-decreasing — pairwise, hence also consecutively
+    (`chainB lexLe`, the clause `fileShapeOK` evaluates on the implementation's files). -/
+theorem trace_stamps_sorted (tr : Key → Bool) (k : Key) (here d : Nat) (n : Nest d)
+    (h : wn k false here d n = true) :
+    ((rowsOf tr d n k).map (·.stamp)).Pairwise (fun a b => lexLe a b = true) ∧
+    chainB lexLe ((rowsOf tr d n k).map (·.stamp)) = true := by
+  have := (wn_sorted tr k false here d n [] [] h).2
+  rw [← rowsOf_stamps] at this
+  have hp : ((rowsOf tr d n k).map (·.stamp)).Pairwise (fun a b => lexLe a b = true) :=
+    this.imp (fun hab => by simpa [stampR] using hab)
+  exact ⟨hp, chainB_of_pairwise lexLe _ hp⟩
+
+/-- … and strictly increasing when the level's own stamps are (plain iteration traces). -/
+theorem trace_iter_stamps_strict (tr : Key → Bool) (k : Key) (here d : Nat) (n : Nest d)
+    (h : wn k true here d n = true) :
+    ((rowsOf tr d n k).map (·.stamp)).Pairwise (fun a b => lexLt a b = true) ∧
+    chainB lexLt ((rowsOf tr d n k).map (·.stamp)) = true := by
+  have := (wn_sorted tr k true here d n [] [] h).2
+  rw [← rowsOf_stamps] at this
+  have hp : ((rowsOf tr d n k).map (·.stamp)).Pairwise (fun a b => lexLt a b = true) :=
+    this.imp (fun hab => by simpa [stampR] using hab)
+  exact ⟨hp, chainB_of_pairwise lexLt _ hp⟩
+
+-- non-vacuity: a two-level nest (second execution of the inner loop restarts its counter)
+example :
+    let inner (c : Int) : Nest 1 := ("K", [.use "K" "iter" c 0, .sub PUnit.unit, .inc, .use "K" "iter" (c + 1) 1, .sub PUnit.unit, .inc])
+    let n : Nest 2 := ("M", [.use "M" "iter" 0 0, .sub (inner 5), .inc, .use "M" "iter" 3 1, .sub (inner 7), .inc])
+    wn ("K", "iter") true 1 2 n = true ∧
+    (rowsOf (fun _ => true) 2 n ("K", "iter")).map (·.stamp) = [[0, 0], [0, 1], [1, 0], [1, 1]] := by
   decide
 
 end Ft
